@@ -87,6 +87,10 @@ func checkMeta(c Case) error {
 	if verr != nil && !isDecodeError(verr) {
 		return harness.Violatef("c13/error-type", "DecodeViewBox returned %T %v, want a DecodeError", verr, verr)
 	}
+	// Decoding without a Destination (validation only) validates the same things.
+	if errNil := decode.Decode(nil, append([]byte{}, c.Bytes...)); (errNil == nil) != (err == nil) {
+		return harness.Violatef("c13/no-destination-verdict", "Decode without a Destination says %v, with one %v", errNil, err)
+	}
 	// Reference semantics.
 	if p.MetaOK != (verr == nil) {
 		return harness.Violatef("c13/viewbox-verdict", "DecodeViewBox err=%v but the reference says metadata valid=%v (%s)", verr, p.MetaOK, p.Err)
